@@ -48,7 +48,7 @@ def failed_protocols(ctx):
     for name, ok, detail in ctx.obligations:
         if not ok and 'IRGen.WrapObl.c' in name:
             out.add(name.split('w_', 1)[1])
-        elif not ok and any(('IRGen.Obl.' + k) in name for k in ('wf_', 'wfB_', 'wfC_', 'wftol_', 'manch_', 'manchData_')):
+        elif not ok and any(('IRGen.Obl.' + k) in name for k in ('wf_', 'wfB_', 'wfC_', 'wfCp_', 'wftol_', 'manch_', 'manchData_')):
             tail = name.split('_', 1)[1] if False else name.split('.')[-1].split('_', 1)[1]
             out.add(tail.rsplit('_', 1)[0] if tail.rsplit('_', 1)[-1].isdigit() else tail)
     return out
